@@ -39,7 +39,7 @@ from .onion import EphemeralOnionService
 from .onion import FilesystemAuthenticatedOnionService
 from .onion import EphemeralAuthenticatedOnionService
 from .onion import AuthStealth  # , AuthBasic
-from .torconfig import _endpoint_from_socksport_line
+from .torconfig import _endpoint_from_socksport_line, _socksport_address
 from .util import SingleObserver, _Version
 
 
@@ -1037,7 +1037,7 @@ def _create_socks_endpoint(reactor, control_protocol, socks_config=None):
     # everything in the SocksPort list can include "options" after the
     # initial value. We don't care about those to find or use a port,
     # but must keep them if we have to re-list the lines (below).
-    bare_ports = [port.split()[0] for port in socks_ports]
+    bare_ports = [_socksport_address(port) for port in socks_ports]
 
     # could check platform? but why would you have unix ports on a
     # platform that doesn't?
@@ -1047,7 +1047,7 @@ def _create_socks_endpoint(reactor, control_protocol, socks_config=None):
     socks_endpoint = None
     for p in list(unix_ports) + list(tcp_ports):  # prefer unix-ports
         # socks_config is a whole SOCKSPort line and may carry options
-        if socks_config and p != socks_config.split()[0]:
+        if socks_config and p != _socksport_address(socks_config):
             continue
         try:
             socks_endpoint = _endpoint_from_socksport_line(reactor, p)
